@@ -247,14 +247,14 @@ def C17(ctx):
                      '{edit to variant okA/okB/bad/noinj/typeerr, gen (header none/ok/unreadable, prefix, tags, default-command form), diff, check, show, delete output, clobber output with stale/broken/garbage} on two packages; '
                      'each history is replayed against the real binary in a fresh sandbox with a hash snapshot of the whole tree around every command; '
                      'non-trivial = distinct (command, arguments, sources, disk-before) combinations; judge: WireCliTrace with CkStatus+CkFootprint')
-    cli.run(ctx, (True, True, False, False), 40 if ctx.quick else 600, 12 if ctx.quick else 20)
+    cli.run(ctx, (True, True, False, False), 30 if ctx.quick else 600, 12 if ctx.quick else 20, focus=150 if ctx.quick else 4000)
 
 
 def C18(ctx):
     import cli
     ctx.rules.append('same machine and histories as C17; the content of every output file after every step is projected by byte comparison with a from-scratch generation '
                      'of the same sources and options in a pristine copy; judge: WireCliTrace with CkRegen (after a successful gen the file is what a fresh checkout gets, gen again changes nothing, diff right after gen exits 0)')
-    cli.run(ctx, (False, False, True, False), 40 if ctx.quick else 600, 14 if ctx.quick else 30)
+    cli.run(ctx, (False, False, True, False), 30 if ctx.quick else 600, 14 if ctx.quick else 30, focus=100 if ctx.quick else 3000)
 
 
 def C01(ctx):
@@ -279,6 +279,15 @@ def C20(ctx):
     ctx.res.cov['exhaustive'] = True
     ctx.run(cases, runtime=False, check=True, build=False, gate=True, allow_typeerr=())
     ctx.run(only_success(ctx.export('FamilyT(p)')), runtime=False, check=True, build=False)
+
+
+def C14(ctx):
+    ctx.rules.append('family N (WireNames): one base program (provider in another package returning value+cleanup+error; provider with three arguments, cleanup and error; provider with cleanup; wire.Value; injector parameter) '
+                     'with every pair of 12 nameable slots (4 types, foreign type, 3 provider functions, injector parameter, a package-level variable, the other package name, its import alias) renamed to every pair of names of an adversarial pool '
+                     '(err, cleanup, cleanup2, context, string, nil, error, Type, Select, foo, foo2, fooBar, _, unnamed, x1, x1_2, ...); package-level err/cleanup variables are live values so that a capture changes behaviour; '
+                     'non-trivial = a naming with at least one non-default name; judge: builds, and the trace under every fault schedule is accepted by WireInjectTrace (all switches) against the SAME wiring as the base naming')
+    cases = ctx.export('FamilyN(p)', extends='WireNames', pre_sample=350 if ctx.quick else 5000)
+    ctx.run(cases, nontrivial=lambda c: c['key'] != 'N/', runtime=True, switches=ALL)
 
 
 def C19(ctx):
@@ -309,6 +318,7 @@ PROPS = {
     'C10': dict(fn=C10, level='model_checking'),
     'C11': dict(fn=C11, level='model_checking'),
     'C12': dict(fn=C12, level='model_checking'),
+    'C14': dict(fn=C14, level='exploration'),
     'C17': dict(fn=C17, level='model_checking'),
     'C18': dict(fn=C18, level='model_checking'),
     'C19': dict(fn=C19, level='model_checking'),
